@@ -5,7 +5,11 @@ Reads the CURRENT `gemclus/data/synthetic_data.py` with `ast` (gemclus is never 
 
   draw_gmm               ordered validity guards (common / 1-D / n-D), arguments handed to `choice`, `normal`
                          (in particular whether `scale[k]` or `np.sqrt(scale[k])` is the standard deviation) and
-                         `multivariate_normal`, the selection comprehension `X[k][i] for i, k in enumerate(y)`
+                         `multivariate_normal`, the selection `X[k][i] for i, k in enumerate(y)` — read off TWO passes
+                         over the body, one per value of the folded test `d == 1` (class `_GmmPass`: the loops over
+                         the components may be written as loops, comprehensions, merged `if d == 1` branches, and the
+                         selection as the comprehension or as `np.stack(X)[y, np.arange(n)]`; what must hold is the
+                         ORDER labels -> all checks -> the K draws -> selection)
   multivariate_student_t arguments of `multivariate_normal` / `chisquare`, the formula `sqrt(df/u)*nx + loc`
   gstm                   locations matrix, identity covariance, `3*n//4` split, rows/proportions handed to
                          draw_gmm, the student row, label value, stacking order, final permutation gather
@@ -15,7 +19,8 @@ Reads the CURRENT `gemclus/data/synthetic_data.py` with `ast` (gemclus is never 
   every function         RNG primitives called and on which object (the checked `generator`, never `np.random.*`)
 
 Numbers are exact: decimal literals become rationals `(num, den)`, `np.sqrt(3)` is carried symbolically as
-`a + b*sqrt(3)` with rational a, b.  Anything outside the expected statement skeleton raises TranslationFailure
+`a + b*sqrt(3)` with rational a, b.  Calls of pure top-level helper functions of the module are inlined
+(`Evaluator.inline`).  Anything outside the expected statement skeleton raises TranslationFailure
 (the tie is then broken and the check runs its failing-input search).
 """
 import ast
@@ -188,8 +193,10 @@ class Evaluator:
     """Abstract interpreter for the straight-line constant-building code of gstm / celeux_one / celeux_two and a
     canonical printer for everything that depends on parameters."""
 
-    def __init__(self, fn, rng_name_hint="generator"):
+    def __init__(self, fn, rng_name_hint="generator", helpers=None, depth=0):
         self.fn = fn
+        self.helpers = helpers or {}    # pure top-level functions of the module (bound once, undecorated): calls are inlined
+        self.depth = depth
         self.env = {}
         self.calls = []          # RNG primitive calls and calls of sibling generators, in program order
         self.generator = None    # local name bound by check_random_state(random_state)
@@ -317,7 +324,13 @@ class Evaluator:
         kw = {k.arg: self.ev(k.value) for k in node.keywords}
         # np.<fn>
         if isinstance(f, ast.Attribute) and isinstance(f.value, ast.Name) and f.value.id in ("np", "numpy", "math"):
+            if f.attr == "full" and f.value.id != "math" and len(node.args) == 2 and not kw \
+                    and isinstance(node.args[1], ast.Constant) and type(node.args[1].value) is float:
+                # `np.full(m, c)` with a float literal: the float array `np.ones(m) * c`
+                return Sym(f"mul(ones({describe(args[0])}),{describe(args[1])})")
             return self.np_call(f.attr, args, kw)
+        if isinstance(f, ast.Name) and f.id in self.helpers and f.id not in self.env:
+            return self.inline(f.id, node, args, kw)
         if isinstance(f, ast.Attribute) and isinstance(f.value, ast.Attribute) and isinstance(f.value.value, ast.Name) \
                 and f.value.value.id == "np":
             if f.value.attr == "random":
@@ -368,6 +381,41 @@ class Evaluator:
             if f.id == "check_array":
                 return args[0]
         raise TranslationFailure(f"{self.fn.name}: unsupported call {ast.dump(f)[:80]}")
+
+    def inline(self, name, node, args, kw):
+        """a call of a pure top-level helper function: its straight-line body is evaluated on the argument values (its RNG
+        calls, if any, are recorded in program order like the caller's)"""
+        from .geminis import check_plain_function
+        fn = self.helpers[name]
+        a = fn.args
+        if self.depth >= 8 or fn.decorator_list or a.vararg or a.kwarg or a.kwonlyargs or a.posonlyargs or a.defaults:
+            raise TranslationFailure(f"{self.fn.name}: unsupported helper function {name}")
+        params = [x.arg for x in a.args]
+        if any(isinstance(x, tuple) and x and x[0] == "*" for x in args) or None in kw or len(args) > len(params):
+            raise TranslationFailure(f"{self.fn.name}: arguments of {name} do not match its signature")
+        given = dict(zip(params, args))
+        for k, v in kw.items():
+            if k not in params or k in given:
+                raise TranslationFailure(f"{self.fn.name}: arguments of {name} do not match its signature")
+            given[k] = v
+        if len(given) != len(params):
+            raise TranslationFailure(f"{self.fn.name}: arguments of {name} do not match its signature")
+
+        class _U:
+            def fail(_, msg, node=None):
+                raise TranslationFailure(f"{self.fn.name}: helper function {msg}")
+        check_plain_function(_U(), fn)
+        sub = Evaluator(fn, helpers=self.helpers, depth=self.depth + 1)
+        sub.env = dict(given)
+        sub.calls = self.calls
+        for st in fn.body:
+            sub.stmt(st)
+            if isinstance(st, ast.Return):
+                break
+        else:
+            raise TranslationFailure(f"{self.fn.name}: helper function {name} does not end with a return at the top level of its body")
+        self.global_rng = self.global_rng or sub.global_rng
+        return sub.ret
 
     def np_call(self, name, args, kw):
         def const_int(v):
@@ -563,118 +611,348 @@ def _range_loop(ev, st):
     return st.target.id
 
 
-def draw_gmm_unit(tree):
-    fn = _func(tree, "draw_gmm")
-    ev = Evaluator(fn)
-    ev.env.update({"K": Sym("K"), "d": Sym("d")})
-    out = {"common": [], "g1": [], "gN": [], "draw1": None, "drawN": None, "choice": None, "select": None,
-           "min_components": None}
-    phase = 0
-    for st in fn.body:
+RESHAPE_BLOCK = {"[n,d]", "[n,-1]"}                 # `.reshape(·)` of the n draws of one component: rows stay rows
+RESHAPE_STACK = {"[K,n,-1]", "[K,n,d]", "[len(loc),n,-1]", "[len(loc),n,d]"}     # of the stacked draws: [k, i] stays [k, i]
+RESHAPE_ROW = {"[1,-1]", "[1,d]"}                   # of one selected draw
+
+
+class _GmmPass:
+    """One pass over the body of draw_gmm with the test `d == 1` FOLDED to `d1` (the one-dimensional and the
+    multivariate case are two straight-line programs over loops on the K components).  Accepted, in this order:
+      check_array lines, `K, d = loc.shape`, top-level `if …: raise` tests (the common guards), the checked generator,
+      the labels `y = generator.choice(…)`, then loops `for k in range(K)` that ONLY check component k (`if …: raise`),
+      then ONE loop (or list comprehension) over `range(K)` that draws the n samples of component k with one RNG call and
+      appends them (`L += [draw]`, `L.append(draw)`, also through a local name and `.reshape((n, d))`), then the
+      selection of the i-th draw of component y[i] — the comprehension `[L[k][i].reshape((1, -1)) for i, k in enumerate(y)]`
+      concatenated along axis 0, or `np.stack(L)[y, np.arange(n)]` on draws of shape (n, ·) (`.reshape((n, d))` per
+      component or `.reshape((K, n, -1))` of the stack) — and `return X, y`.
+    A loop that both checks and draws, a check after a draw, a second drawing loop, draws before the labels: refused
+    (they change which RNG state an error leaves behind, or the order of the draws)."""
+
+    def __init__(self, fn, d1):
+        self.fn, self.d1 = fn, d1
+        self.ev = Evaluator(fn)
+        self.ev.env.update({"K": Sym("K"), "d": Sym("d")})
+        self.common, self.guards = [], []
+        self.draw, self.choice, self.select, self.ret, self.min_components = None, None, None, None, None
+        self.y_name = None
+        self.lists = {}          # name -> 0: declared `[]`; 1: holds the K blocks of draws, in component order
+        self.block2d = False     # every block was reshaped to (n, d) (the multivariate draws are (n, d) by themselves)
+        self.stacks = {}         # name -> True: the (K, n, ·) array of the blocks
+        self.selected = {}       # name -> "rows" (python list of (1, ·) rows) | "array" (the (n, ·) result)
+
+    def fail(self, msg, node=None):
+        ln = f" at line {node.lineno}" if node is not None and hasattr(node, "lineno") else ""
+        raise TranslationFailure(f"draw_gmm: {msg}{ln}")
+
+    def test(self, node):
+        return describe(self.ev.ev(node))
+
+    # ---- statements of the function body (and of the folded `if d == 1` branches)
+    def block(self, body):
+        for st in body:
+            self.stmt(st)
+
+    def stmt(self, st):
+        ev = self.ev
         if isinstance(st, ast.Expr) and isinstance(st.value, ast.Constant):
-            continue
+            return
+        if self.ret is not None:
+            self.fail("statement after the return", st)
+        if isinstance(st, ast.Assign) and len(st.targets) != 1:
+            self.fail("chained assignment", st)
         if isinstance(st, ast.Assign) and isinstance(st.value, ast.Call) and isinstance(st.value.func, ast.Name) \
                 and st.value.func.id == "check_array":
-            nm = st.targets[0].id
-            arg0 = st.value.args[0]
-            if not (isinstance(arg0, ast.Name) and arg0.id == nm and nm in ("loc", "scale", "pvals")):
-                raise TranslationFailure("draw_gmm: check_array not of the form x = check_array(x, ...)")
+            tgt = st.targets[0]
+            arg0 = st.value.args[0] if st.value.args else None
+            if not (isinstance(tgt, ast.Name) and isinstance(arg0, ast.Name) and arg0.id == tgt.id
+                    and tgt.id in ("loc", "scale", "pvals")):
+                self.fail("check_array not of the form x = check_array(x, ...)", st)
             for k in st.value.keywords:
-                if k.arg == "ensure_min_samples" and nm == "loc":
-                    out["min_components"] = int(k.value.value)
-            continue
+                if k.arg == "ensure_min_samples" and tgt.id == "loc":
+                    self.min_components = int(k.value.value)
+            return
         if isinstance(st, ast.Assign) and isinstance(st.targets[0], ast.Tuple):
-            names = [e.id for e in st.targets[0].elts]
-            if names != ["K", "d"] or describe(ev.ev(st.value)) != "shape(loc)":
-                raise TranslationFailure("draw_gmm: expected `K, d = loc.shape`")
-            continue
-        if isinstance(st, ast.If) and _is_raise(st.body) and not st.orelse:
-            if ev.generator is not None and out["choice"] is not None:
-                raise TranslationFailure("draw_gmm: top-level guard after the draws")
-            out["common"] += _guard_tokens(ev, st.test)
-            continue
-        if isinstance(st, ast.If) and describe(ev.ev(st.test)) == "ne(d,1)" and not st.orelse and len(st.body) == 1 \
-                and isinstance(st.body[0], ast.If) and _is_raise(st.body[0].body):
-            out["common"] += _guard_tokens(ev, st.body[0].test, "ne(d,1)=>")
-            continue
+            names = [e.id for e in st.targets[0].elts if isinstance(e, ast.Name)]
+            if names != ["K", "d"] or self.test(st.value) != "shape(loc)":
+                self.fail("expected `K, d = loc.shape`", st)
+            return
+        if isinstance(st, ast.If):
+            t = self.test(st.test)
+            if t == "ne(d,1)" and not st.orelse and len(st.body) == 1 and isinstance(st.body[0], ast.If) \
+                    and _is_raise(st.body[0].body) and not st.body[0].orelse and self.choice is None:
+                self.common += _guard_tokens(ev, st.body[0].test, "ne(d,1)=>")
+                return
+            if t == "eq(d,1)":
+                return self.block(st.body if self.d1 else st.orelse)
+            if t == "ne(d,1)":
+                return self.block(st.orelse if self.d1 else st.body)
+            if _is_raise(st.body) and not st.orelse:
+                if ev.generator is not None and self.choice is not None:
+                    self.fail("top-level guard after the draws", st)
+                self.common += _guard_tokens(ev, st.test)
+                return
+            self.fail(f"unexpected branch on `{t}`", st)
         if isinstance(st, ast.Assign) and isinstance(st.value, ast.Call) and isinstance(st.value.func, ast.Name) \
                 and st.value.func.id == "check_random_state":
             ev.stmt(st)
-            continue
+            return
         if isinstance(st, ast.Assign) and isinstance(st.targets[0], ast.Name) and isinstance(st.value, ast.List) \
                 and not st.value.elts:
+            if self.draw is not None:
+                self.fail("a list is emptied after the component draws", st)
+            self.lists[st.targets[0].id] = 0
             ev.env[st.targets[0].id] = []
-            xs_name = st.targets[0].id
-            continue
-        if isinstance(st, ast.Assign) and isinstance(st.value, ast.Call) and isinstance(st.value.func, ast.Attribute) \
-                and st.value.func.attr == "choice":
+            return
+        if isinstance(st, ast.Assign) and isinstance(st.targets[0], ast.Name) and isinstance(st.value, ast.Call) \
+                and isinstance(st.value.func, ast.Attribute) and st.value.func.attr == "choice":
+            if self.choice is not None or self.draw is not None or self.guards:
+                self.fail("the labels are not drawn first (once, before the component checks and draws)", st)
             ev.stmt(st)
-            y_name = st.targets[0].id
+            self.y_name = st.targets[0].id
             c = ev.calls[-1]
             if c["on"] != "generator":
-                raise TranslationFailure("draw_gmm: choice not drawn from the checked generator")
-            out["choice"] = {"a": describe(c["args"][0]) if c["args"] else describe(c["kw"].get("a")),
-                             "p": describe(c["kw"].get("p")) if "p" in c["kw"] else (describe(c["args"][3]) if len(c["args"]) > 3 else "None"),
-                             "size": describe(c["kw"].get("size")) if "size" in c["kw"] else (describe(c["args"][1]) if len(c["args"]) > 1 else "None"),
-                             "replace": describe(c["kw"].get("replace")) if "replace" in c["kw"] else "default"}
-            continue
-        if isinstance(st, ast.If) and describe(ev.ev(st.test)) == "eq(d,1)":
-            for branch, gkey, dkey in ((st.body, "g1", "draw1"), (st.orelse, "gN", "drawN")):
-                for sub in branch:
-                    kvar = _range_loop(ev, sub)
-                    if kvar is None:
-                        raise TranslationFailure("draw_gmm: unexpected statement in the per-dimension branch")
-                    ev.env[kvar] = Sym("k")
-                    for inner in sub.body:
-                        if isinstance(inner, ast.If) and _is_raise(inner.body) and not inner.orelse:
-                            if out[dkey] is not None:
-                                raise TranslationFailure("draw_gmm: guard after the component draws")
-                            out[gkey] += _guard_tokens(ev, inner.test)
-                        elif isinstance(inner, ast.AugAssign) and isinstance(inner.value, ast.List) and len(inner.value.elts) == 1 \
-                                and isinstance(inner.target, ast.Name) and inner.target.id == xs_name:
-                            n0 = len(ev.calls)
-                            ev.ev(inner.value.elts[0])
-                            if len(ev.calls) != n0 + 1:
-                                raise TranslationFailure("draw_gmm: component draw is not a single RNG call")
-                            c = ev.calls[-1]
-                            if c["on"] != "generator":
-                                raise TranslationFailure("draw_gmm: component draw not from the checked generator")
-                            a = [describe(x) for x in c["args"]]
-                            kw = {k: describe(v) for k, v in c["kw"].items()}
-                            if c["prim"] == "normal":
-                                loc = a[0] if a else kw.get("loc")
-                                sc = a[1] if len(a) > 1 else kw.get("scale")
-                                out[dkey] = {"prim": "normal", "loc": loc, "scale": sc, "size": kw.get("size", a[2] if len(a) > 2 else "None")}
-                            elif c["prim"] == "multivariate_normal":
-                                mean = a[0] if a else kw.get("mean")
-                                cov = a[1] if len(a) > 1 else kw.get("cov")
-                                out[dkey] = {"prim": "multivariate_normal", "loc": mean, "scale": cov,
-                                             "size": kw.get("size", a[2] if len(a) > 2 else "None")}
-                            else:
-                                out[dkey] = {"prim": c["prim"], "loc": ",".join(a), "scale": "", "size": kw.get("size", "None")}
-                        else:
-                            raise TranslationFailure("draw_gmm: unexpected statement in a component loop")
-            continue
-        if isinstance(st, ast.Assign) and isinstance(st.value, ast.ListComp):
-            out["select"] = _selection(st.value, xs_name, y_name)
-            sel_name = st.targets[0].id
-            continue
+                self.fail("choice not drawn from the checked generator", st)
+            self.choice = {"a": describe(c["args"][0]) if c["args"] else describe(c["kw"].get("a")),
+                           "p": describe(c["kw"].get("p")) if "p" in c["kw"] else (describe(c["args"][3]) if len(c["args"]) > 3 else "None"),
+                           "size": describe(c["kw"].get("size")) if "size" in c["kw"] else (describe(c["args"][1]) if len(c["args"]) > 1 else "None"),
+                           "replace": describe(c["kw"].get("replace")) if "replace" in c["kw"] else "default"}
+            return
+        if isinstance(st, ast.For):
+            return self.loop(st)
+        if isinstance(st, ast.Assign) and isinstance(st.targets[0], ast.Name):
+            name, v = st.targets[0].id, st.value
+            if isinstance(v, ast.ListComp) and self.is_component_range(v):
+                return self.draw_comprehension(name, v, st)
+            if isinstance(v, ast.ListComp):
+                if self.select is not None:
+                    self.fail("second selection", st)
+                xs = self.filled_list(v, st)
+                self.select = _selection(v, xs, self.y_name)
+                self.selected[name] = "rows"
+                return
+            if self.is_stack(v):
+                self.stack_expr(v, st)
+                self.stacks[name] = True
+                return
+            if self.is_selection(v):
+                self.selection_expr(v, st)
+                self.selected[name] = "array"
+                return
+            self.fail("unexpected assignment", st)
         if isinstance(st, ast.Return):
             v = st.value
-            ok = isinstance(v, ast.Tuple) and len(v.elts) == 2 and isinstance(v.elts[1], ast.Name) and v.elts[1].id == y_name \
-                and isinstance(v.elts[0], ast.Call) and isinstance(v.elts[0].func, ast.Attribute) and v.elts[0].func.attr in ("concatenate", "vstack") \
-                and isinstance(v.elts[0].args[0], ast.Name) and v.elts[0].args[0].id == sel_name
-            if ok and v.elts[0].func.attr == "concatenate":
-                ax = [k for k in v.elts[0].keywords if k.arg == "axis"]
-                ok = len(ax) == 1 and isinstance(ax[0].value, ast.Constant) and ax[0].value.value == 0
-            if not ok:
-                raise TranslationFailure("draw_gmm: return is not `np.concatenate(X, axis=0), y`")
-            out["return"] = "rows,y"
-            continue
-        raise TranslationFailure(f"draw_gmm: unexpected statement {type(st).__name__} at line {st.lineno}")
-    for key in ("draw1", "drawN", "choice", "select"):
-        if out[key] is None:
-            raise TranslationFailure(f"draw_gmm: missing {key}")
+            if not (isinstance(v, ast.Tuple) and len(v.elts) == 2 and isinstance(v.elts[1], ast.Name)
+                    and v.elts[1].id == self.y_name):
+                self.fail("return is not `X, y`", st)
+            x = v.elts[0]
+            if isinstance(x, ast.Name) and self.selected.get(x.id) == "array":
+                pass
+            elif self.is_selection(x):
+                self.selection_expr(x, st)
+            else:
+                ok = isinstance(x, ast.Call) and isinstance(x.func, ast.Attribute) and x.func.attr in ("concatenate", "vstack") \
+                    and isinstance(x.func.value, ast.Name) and x.func.value.id in ("np", "numpy") \
+                    and len(x.args) == 1 and isinstance(x.args[0], ast.Name) and self.selected.get(x.args[0].id) == "rows"
+                if ok and x.func.attr == "concatenate":
+                    ax = [k for k in x.keywords if k.arg == "axis"]
+                    ok = len(ax) == 1 and len(x.keywords) == 1 and isinstance(ax[0].value, ast.Constant) and ax[0].value.value == 0
+                elif ok:
+                    ok = not x.keywords
+                if not ok:
+                    self.fail("return is not `np.concatenate(X, axis=0), y`", st)
+            self.ret = "rows,y"
+            return
+        self.fail(f"unexpected statement {type(st).__name__}", st)
+
+    # ---- loops over the components
+    def is_component_range(self, comp):
+        return len(comp.generators) == 1 and isinstance(comp.generators[0].iter, ast.Call) \
+            and isinstance(comp.generators[0].iter.func, ast.Name) and comp.generators[0].iter.func.id == "range"
+
+    def fold(self, body):
+        """the statements of a loop body with the tests on `d == 1` folded"""
+        out = []
+        for st in body:
+            if isinstance(st, ast.Expr) and isinstance(st.value, ast.Constant):
+                continue
+            if isinstance(st, ast.If) and self.test(st.test) in ("eq(d,1)", "ne(d,1)"):
+                first = (self.test(st.test) == "eq(d,1)") == self.d1
+                out += self.fold(st.body if first else st.orelse)
+            else:
+                out.append(st)
+        return out
+
+    def loop(self, st):
+        ev = self.ev
+        kvar = _range_loop(ev, st)
+        if kvar is None:
+            self.fail("unsupported loop", st)
+        if self.choice is None:
+            self.fail("a loop over the components before the labels are drawn", st)
+        ev.env[kvar] = Sym("k")
+        body = self.fold(st.body)
+        checks = [x for x in body if isinstance(x, ast.If) and _is_raise(x.body) and not x.orelse]
+        if checks and len(checks) != len(body):
+            self.fail("a loop that both checks and draws (or holds another statement than `if …: raise`)", st)
+        if checks:
+            if self.draw is not None:
+                self.fail("guard after the component draws", st)
+            for x in checks:
+                self.guards += _guard_tokens(ev, x.test)
+            return
+        if not body:
+            return
+        # the drawing loop
+        if self.draw is not None:
+            self.fail("second loop drawing component samples", st)
+        local, appended, n0, reshaped = {}, None, len(ev.calls), False
+        for x in body:
+            if isinstance(x, ast.Assign) and len(x.targets) == 1 and isinstance(x.targets[0], ast.Name) and appended is None \
+                    and x.targets[0].id not in self.lists and x.targets[0].id not in (kvar, self.y_name):
+                reshaped = self.component_draw(x.value, local, x) or reshaped
+                local = {x.targets[0].id: True}
+                continue
+            tgt = val = None
+            if isinstance(x, ast.AugAssign) and isinstance(x.op, ast.Add) and isinstance(x.target, ast.Name) \
+                    and isinstance(x.value, ast.List) and len(x.value.elts) == 1:
+                tgt, val = x.target.id, x.value.elts[0]
+            elif isinstance(x, ast.Expr) and isinstance(x.value, ast.Call) and isinstance(x.value.func, ast.Attribute) \
+                    and x.value.func.attr == "append" and isinstance(x.value.func.value, ast.Name) \
+                    and len(x.value.args) == 1 and not x.value.keywords:
+                tgt, val = x.value.func.value.id, x.value.args[0]
+            if tgt is None or appended is not None or self.lists.get(tgt) != 0:
+                self.fail("unexpected statement in a component loop", x)
+            reshaped = self.component_draw(val, local, x) or reshaped
+            appended = tgt
+        if appended is None or len(ev.calls) != n0 + 1:
+            self.fail("a component loop does not append exactly one RNG draw", st)
+        self.lists[appended] = 1
+        self.block2d = reshaped or not self.d1
+        self.record_draw(ev.calls[-1], st)
+
+    def draw_comprehension(self, name, comp, st):
+        ev = self.ev
+        g = comp.generators[0]
+        if g.ifs or g.is_async or not isinstance(g.target, ast.Name) or self.test(g.iter) not in ("range(K)", "range(len(loc))"):
+            self.fail("comprehension over something else than the K components", st)
+        if self.choice is None or self.draw is not None:
+            self.fail("component draws before the labels / second drawing loop", st)
+        ev.env[g.target.id] = Sym("k")
+        n0 = len(ev.calls)
+        reshaped = self.component_draw(comp.elt, {}, st)
+        if len(ev.calls) != n0 + 1:
+            self.fail("component draw is not a single RNG call", st)
+        self.lists[name] = 1
+        self.block2d = reshaped or not self.d1
+        self.record_draw(ev.calls[-1], st)
+
+    def component_draw(self, e, local, node):
+        """`e`: the draw of one component (a call on the checked generator) or the local name holding it, possibly
+        `.reshape((n, d))`; returns whether it was reshaped to (n, d)"""
+        reshaped = False
+        while isinstance(e, ast.Call) and isinstance(e.func, ast.Attribute) and e.func.attr == "reshape":
+            arg = e.args[0] if len(e.args) == 1 else ast.Tuple(elts=list(e.args), ctx=ast.Load())
+            if e.keywords or self.test(arg) not in RESHAPE_BLOCK:
+                self.fail("reshape of a component's draws to something else than (n, d)", node)
+            reshaped, e = True, e.func.value
+        if isinstance(e, ast.Name) and e.id in local:
+            return reshaped
+        if not (isinstance(e, ast.Call) and isinstance(e.func, ast.Attribute) and isinstance(e.func.value, ast.Name)
+                and e.func.value.id == self.ev.generator):
+            self.fail("component draw not from the checked generator", node)
+        if local:
+            self.fail("two draws for one component", node)
+        self.ev.ev(e)
+        return reshaped
+
+    def record_draw(self, c, node):
+        if c["on"] != "generator":
+            self.fail("component draw not from the checked generator", node)
+        a = [describe(x) for x in c["args"]]
+        kw = {k: describe(v) for k, v in c["kw"].items()}
+        if c["prim"] == "normal":
+            self.draw = {"prim": "normal", "loc": a[0] if a else kw.get("loc"), "scale": a[1] if len(a) > 1 else kw.get("scale"),
+                         "size": kw.get("size", a[2] if len(a) > 2 else "None")}
+        elif c["prim"] == "multivariate_normal":
+            self.draw = {"prim": "multivariate_normal", "loc": a[0] if a else kw.get("mean"),
+                         "scale": a[1] if len(a) > 1 else kw.get("cov"), "size": kw.get("size", a[2] if len(a) > 2 else "None")}
+        else:
+            self.draw = {"prim": c["prim"], "loc": ",".join(a), "scale": "", "size": kw.get("size", "None")}
+
+    # ---- the selection of the i-th draw of component y[i]
+    def filled_list(self, comp, st):
+        """the name of the list of blocks read by the old-style selection comprehension"""
+        names = [n.id for n in ast.walk(comp.elt) if isinstance(n, ast.Name) and self.lists.get(n.id) == 1]
+        if len(set(names)) != 1:
+            self.fail("selection comprehension does not read the list of component draws", st)
+        e = comp.elt
+        while isinstance(e, ast.Call) and isinstance(e.func, ast.Attribute) and e.func.attr in SHAPE_ONLY_METHODS:
+            arg = e.args[0] if len(e.args) == 1 else ast.Tuple(elts=list(e.args), ctx=ast.Load())
+            if e.func.attr != "reshape" or e.keywords or self.test(arg) not in RESHAPE_ROW:
+                self.fail("a selected draw is reshaped to something else than one row", st)
+            e = e.func.value
+        return names[0]
+
+    def is_np(self, f, names):
+        return isinstance(f, ast.Attribute) and isinstance(f.value, ast.Name) and f.value.id in ("np", "numpy") and f.attr in names
+
+    def is_stack(self, e):
+        while isinstance(e, ast.Call) and isinstance(e.func, ast.Attribute) and e.func.attr == "reshape":
+            e = e.func.value
+        return (isinstance(e, ast.Name) and e.id in self.stacks) or (isinstance(e, ast.Call) and self.is_np(e.func, {"stack"}))
+
+    def stack_expr(self, e, node):
+        """`np.stack(L)` / `np.stack(L, axis=0)` of the K blocks, possibly `.reshape((K, n, -1))`: the (K, n, ·) array whose
+        entry [k, i] is the i-th draw of component k.  Sets `block2d` when the reshape makes the draws rows."""
+        while isinstance(e, ast.Call) and isinstance(e.func, ast.Attribute) and e.func.attr == "reshape":
+            arg = e.args[0] if len(e.args) == 1 else ast.Tuple(elts=list(e.args), ctx=ast.Load())
+            if e.keywords or self.test(arg) not in RESHAPE_STACK:
+                self.fail("reshape of the stacked draws to something else than (K, n, -1)", node)
+            self.block2d = True
+            e = e.func.value
+        if isinstance(e, ast.Name) and e.id in self.stacks:
+            return
+        if not (isinstance(e, ast.Call) and self.is_np(e.func, {"stack"}) and len(e.args) == 1 and isinstance(e.args[0], ast.Name)
+                and self.lists.get(e.args[0].id) == 1):
+            self.fail("np.stack of something else than the list of component draws", node)
+        for k in e.keywords:
+            if k.arg != "axis" or not (isinstance(k.value, ast.Constant) and k.value.value == 0 and type(k.value.value) is int):
+                self.fail("np.stack along another axis than 0", node)
+
+    def is_selection(self, e):
+        return isinstance(e, ast.Subscript) and isinstance(e.slice, ast.Tuple) and self.is_stack(e.value)
+
+    def selection_expr(self, e, node):
+        """`S[y, np.arange(n)]` for the (K, n, d) stack `S`: row i is `S[y[i], i]`"""
+        if self.select is not None:
+            self.fail("second selection", node)
+        self.stack_expr(e.value, node)
+        idx = e.slice.elts
+        if not (len(idx) == 2 and isinstance(idx[0], ast.Name) and idx[0].id == self.y_name and self.y_name is not None
+                and isinstance(idx[1], ast.Call) and self.is_np(idx[1].func, {"arange"}) and len(idx[1].args) == 1
+                and not idx[1].keywords and self.test(idx[1].args[0]) == "n"):
+            self.fail("selection is not S[y, np.arange(n)]", node)
+        if not self.block2d:
+            self.fail("selection from stacked one-dimensional draws that were not reshaped to (n, d): the result would be 1-D", node)
+        self.select = "X[k][i] for i,k in enumerate(y)"
+
+    def run(self):
+        self.block(self.fn.body)
+        for key in ("draw", "choice", "select", "ret"):
+            if getattr(self, key) is None:
+                self.fail(f"missing {key}" + ("1" if self.d1 else "N") if key == "draw" else f"missing {key}")
+        return self
+
+
+def draw_gmm_unit(tree):
+    fn = _func(tree, "draw_gmm")
+    one, many = _GmmPass(fn, True).run(), _GmmPass(fn, False).run()
+    for key in ("common", "choice", "select", "ret", "min_components"):
+        if getattr(one, key) != getattr(many, key):
+            raise TranslationFailure(f"draw_gmm: the one-dimensional and the multivariate case differ in `{key}`")
+    out = {"common": one.common, "g1": one.guards, "gN": many.guards, "draw1": one.draw, "drawN": many.draw,
+           "choice": one.choice, "select": one.select, "min_components": one.min_components, "return": one.ret}
     if out["draw1"]["scale"] in STD_TOKENS:
         out["draw1"]["scale"] = STD_TOKENS[out["draw1"]["scale"]]
     for dk in ("draw1", "drawN"):
@@ -682,8 +960,9 @@ def draw_gmm_unit(tree):
         out[dk]["scale"] = {"idx(scale,k)": "scale[k]"}.get(out[dk]["scale"], out[dk]["scale"])
         out[dk]["size"] = {"[n]": "n"}.get(out[dk]["size"], out[dk]["size"])
     out["choice"]["size"] = {"[n]": "n"}.get(out["choice"]["size"], out["choice"]["size"])
-    out["prims"] = sorted({c["prim"] for c in ev.calls})
-    out["global_rng"] = ev.global_rng or any(c["on"] != "generator" for c in ev.calls)
+    calls = one.ev.calls + many.ev.calls
+    out["prims"] = sorted({c["prim"] for c in calls})
+    out["global_rng"] = one.ev.global_rng or many.ev.global_rng or any(c["on"] != "generator" for c in calls)
     return out
 
 
@@ -744,6 +1023,14 @@ def student_unit(tree):
 
 
 # ------------------------------------------------------------------ gstm / celeux_one / celeux_two (evaluated)
+def _helpers(tree):
+    """the pure helper functions a generator may call: top-level, undecorated, bound exactly once in the module (the
+    generators themselves are decorated with @constraint_params and handled as `sibling` calls)"""
+    from .geminis import module_helpers
+    return {k: v for k, v in module_helpers(tree).items()
+            if not v.decorator_list and k not in ("draw_gmm", "multivariate_student_t", "gstm", "celeux_one", "celeux_two")}
+
+
 def _sibling_args(c, names):
     """positional/keyword arguments of a call to draw_gmm / multivariate_student_t by parameter name"""
     out = {}
@@ -791,7 +1078,7 @@ def _scaled_rows(v, what):
 
 def gstm_unit(tree):
     fn = _func(tree, "gstm")
-    ev = Evaluator(fn).run()
+    ev = Evaluator(fn, helpers=_helpers(tree)).run()
     seq = [(c["on"], c["prim"]) for c in ev.calls]
     if seq != [("sibling", "draw_gmm"), ("sibling", "multivariate_student_t"), ("generator", "permutation")]:
         raise TranslationFailure(f"gstm: call sequence {seq}")
@@ -827,8 +1114,11 @@ def gstm_unit(tree):
         out["locations"] = rows + [srow]
     # return X[order], y[order] with X = vstack([gmm.X, student]), y = concatenate([gmm.y, ones(nS)*label])
     ret = describe(ev.ret)
-    pat = (r"\[idx\(vstack\(\[draw_gmm0\.0,multivariate_student_t1\]\),rng2\),"
-           r"idx\(concatenate\(\[draw_gmm0\.1,mul\(ones\(" + re.escape(f"sub(n,{nG})") + r"\),(\d+)\)\]\),rng2\)\]")
+    # rows: `np.vstack([Xg, Xs])` = `np.concatenate([Xg, Xs], axis=0)` for 2-D blocks; labels: `np.ones(nS) * c` =
+    # `np.full(nS, c)` with a FLOAT literal c (printed `mul(ones(nS),c)` by Evaluator.call; an integer c changes the dtype)
+    pat = (r"\[idx\((?:vstack\(\[draw_gmm0\.0,multivariate_student_t1\]\)|"
+           r"concatenate\(\[draw_gmm0\.0,multivariate_student_t1\],axis=0\)),rng2\),"
+           r"idx\(concatenate\(\[draw_gmm0\.1,mul\(ones\(" + re.escape(f"sub(n,{nG})") + r"\),(\d+)\)\](?:,axis=0)?\),rng2\)\]")
     m = re.fullmatch(pat, ret)
     if not m:
         raise TranslationFailure(f"gstm: return expression `{ret}` is not (vstack([Xg, Xs])[order], concatenate([yg, ones(nS)*c])[order])")
@@ -841,7 +1131,7 @@ def gstm_unit(tree):
 
 def celeux_one_unit(tree):
     fn = _func(tree, "celeux_one")
-    ev = Evaluator(fn).run()
+    ev = Evaluator(fn, helpers=_helpers(tree)).run()
     seq = [(c["on"], c["prim"]) for c in ev.calls]
     if seq != [("sibling", "draw_gmm"), ("generator", "normal")]:
         raise TranslationFailure(f"celeux_one: call sequence {seq}")
@@ -867,7 +1157,7 @@ def celeux_one_unit(tree):
 
 def celeux_two_unit(tree):
     fn = _func(tree, "celeux_two")
-    ev = Evaluator(fn).run()
+    ev = Evaluator(fn, helpers=_helpers(tree)).run()
     seq = [(c["on"], c["prim"]) for c in ev.calls]
     if seq != [("sibling", "draw_gmm"), ("generator", "multivariate_normal"), ("generator", "multivariate_normal")]:
         raise TranslationFailure(f"celeux_two: call sequence {seq}")
